@@ -127,6 +127,10 @@ func getFileDataFromRemote(reqURL string) (*whispertool.Header, TimeSeriesList, 
 		if data, err = tsList[i].TakeFrom(data); err != nil {
 			return nil, nil, err
 		}
+		if tsList[i].Step() == 0 {
+			// an absent series, same as the local result.
+			tsList[i] = nil
+		}
 	}
 	return h, tsList, nil
 }
